@@ -9,7 +9,7 @@ import vbuild, vcheck
 H = os.path.join(vbuild.VERIF, "harness")
 DRIVERS = [os.path.join(H, f) for f in ("drv_arrayad.cpp", "drv_arrayad_s1.cpp", "drv_arrayad_s2.cpp",
                                         "drv_arrayad_s3.cpp", "drv_arrayad_s4.cpp", "drv_arrayad_s5.cpp",
-                                        "drv_arrayad_s6.cpp", "drv_arrayad_s7.cpp", "drv_arrayad_s8.cpp", "drv_arrayad_s9.cpp")]
+                                        "drv_arrayad_s6.cpp", "drv_arrayad_s7.cpp", "drv_arrayad_s8.cpp", "drv_arrayad_s9.cpp", "drv_arrayad_s10.cpp")]
 EXACT_BOUND = 1 << 50
 
 
